@@ -47,6 +47,56 @@ fn start_watchdog() {
     });
 }
 
+/// What a trace file covers: runs, rows, panics, distinct non-trivial cases (>= 2 rows, distinct by source text and
+/// configuration), and a few samples.
+fn trace_stats(lines: &[serde_json::Value]) -> serde_json::Value {
+    use std::collections::HashSet;
+    use std::hash::{Hash, Hasher};
+    let mut runs = 0usize;
+    let mut rows = 0usize;
+    let mut errs = 0usize;
+    let mut panics = 0usize;
+    let mut distinct: HashSet<u64> = HashSet::new();
+    let mut samples = vec![];
+    let mut cur_key = 0u64;
+    let mut cur_rows = 0usize;
+    let mut cur_text = String::new();
+    for l in lines {
+        match l["ev"].as_str().unwrap_or("") {
+            "begin" => {
+                runs += 1;
+                cur_rows = 0;
+                cur_text = l["text"].as_str().unwrap_or("").to_string();
+                let mut h = std::collections::hash_map::DefaultHasher::new();
+                cur_text.hash(&mut h);
+                l["test"]["supplied"].to_string().hash(&mut h);
+                l["cfg"].to_string().hash(&mut h);
+                cur_key = h.finish();
+            }
+            "end" => {
+                if cur_rows >= 2 {
+                    if distinct.insert(cur_key) && samples.len() < 3 {
+                        samples.push(serde_json::json!({"text": cur_text, "rows": cur_rows}));
+                    }
+                }
+            }
+            _ => {
+                let k = l["item"]["k"].as_str().or(l["res"]["k"].as_str()).unwrap_or("");
+                match k {
+                    "row" => {
+                        rows += 1;
+                        cur_rows += 1;
+                    }
+                    "err" | "driver" | "runtime" => errs += 1,
+                    "panic" => panics += 1,
+                    _ => {}
+                }
+            }
+        }
+    }
+    serde_json::json!({"runs": runs, "rows": rows, "error_items": errs, "panics": panics, "distinct_nontrivial": distinct.len(), "samples": samples})
+}
+
 fn main() {
     run::install_panic_hook();
     start_watchdog();
@@ -64,6 +114,8 @@ fn main() {
                 writeln!(f, "{}", l).unwrap();
             }
             f.flush().unwrap();
+            let stats = trace_stats(&lines);
+            std::fs::write(format!("{out}.stats.json"), serde_json::to_string(&stats).unwrap()).expect("write stats");
             eprintln!("tracegen: prop={prop} seed={seed} runs={runs} lines={}", lines.len());
         }
         _ => {
